@@ -11,8 +11,8 @@ MANIFEST = {
                  "differential correspondence of outcome classes and projected values (extracted OCaml vs Go in isolated "
                  "worker processes, on the same hostile generators as the search) + hostile-input search over every anchored "
                  "entry point incl. the SPS -> PPS -> slice pipelines",
-    "level_text": "Theorems, for ALL byte lists with no hypothesis (four files: coq/c16/C16Theorems.v, C16TheoremsParse.v, "
-                  "C16TheoremsAux.v, C16TheoremsConfRec.v; every theorem closed under the global context): a value or an error, never Panic, never "
+    "level_text": "Theorems, for ALL byte lists with no hypothesis (five files: coq/c16/C16Theorems.v, C16TheoremsParse.v, "
+                  "C16TheoremsAux.v, C16TheoremsConfRec.v, C16TheoremsHevc.v; every theorem closed under the global context): a value or an error, never Panic, never "
                   "OutOfFuel, iterations and sizes of built lists bounded linearly in the input, for (1) each length-field NAL-unit "
                   "walker of avc and hevc as repaired (<= |bs|/4 iterations and appends); (2) the EBSP bit reader (Read, "
                   "ReadExpGolomb, sticky error); (3) avc.ParseSPSNALUnit (every reader state; all allocations constant: <= 255 POC "
@@ -31,14 +31,22 @@ MANIFEST = {
                   "accumulated error, count loops on fuel): NAL units and their bytes <= |data|, iterations linear, HEVC arrays <= 255 "
                   "(arrays <= |data| refuted: 255 empty arrays are returned with the read error of a 23-byte record). Every modelled entry point is tied to "
                   "/repo on every run: outcome class and projected values on the hostile generators must equal the extracted model's. "
-                  "Explored only (search, no theorem): the HEVC SPS/PPS/slice-header parsers (no model in C16): field-level syntax writers "
+                  "(8) hevc.ParseSPSNALUnit, ParsePPSNALUnit, ParseSliceHeader (wrappers generated from the frozen C15 HEVC model with "
+                  "data-derived fuel, proved equal to it wherever it is defined): Err or Ok, never Panic (ShortTermRefPicSets[idx-deltaIdx] "
+                  "shown in range), every data-driven loop within 8|nalu|+10 iterations; the slice header for EVERY map whose entries satisfy "
+                  "the boolean predicates hsps_wfb/hpps_wfb, which the SPS/PPS theorems show to hold of everything the parsers return; the "
+                  "three-stage pipeline hostile SPS -> PPS -> slice composed (C16_hevc_ParsePSAndSlice_total). PARTIAL: a PPS selecting "
+                  "pps_multilayer_extension / pps_3d_extension is outside the model (OutOfFuel in the PPS theorem, cases not compared). "
+                  "Explored only (search, no theorem): those two PPS extension bodies; field-level syntax writers "
                   "for AVC and HEVC SPS/PPS/slice drive the pipelines SPS -> PPS -> slice, SPS -> SEI and config record -> parameter sets "
                   "-> slice with 0/1/2 hostile fields per stage (each ue/se/u field at 0, 1, max-1, max, max+1, 255, 256, 2^16-1, 2^32-1 ...), "
                   "all slice types, tool flags on; String/Payload of the remaining messages; cmd/mp4ff-nallister / pslister on hostile files.",
     "level_note": "Trusted: Coq kernel, extraction, OCaml/Go glue, worker classification (wall-clock budget, runtime/metrics "
                   "allocation counter, watchdog + ulimit -v). Models of other properties are imported read-only (C13 reader, C14 "
                   "scanners, C15 AVC parsers, C17 SEI, C18 AAC); where they are total but Go indexes, C16 wraps them with partial "
-                  "operations and proves agreement. C15's constant loop caps are replaced by data-derived fuel in C16ParseModel.v. "
+                  "operations and proves agreement. C15's constant loop caps are replaced by data-derived fuel in C16ParseModel.v / "
+                  "C16HevcParseModel.v (text generated from C15's, agreement proved). The HEVC reference context of the correspondence omits "
+                  "the one reference PPS the C15 model does not cover. "
                   "Go int is taken to be 64 bit (no wrap of len+2^32). Real time and heap are observed, not proved.",
 }
 
@@ -69,7 +77,8 @@ def run(ctx):
         "fix: commits; bit reader model imported from coq/c13/C13Model.v; coq/c16/C16ParseModel.v (AVC SPS/PPS/slice-header "
         "parsers = coq/c15/C15Model.v with data-derived loop fuel, avc.GetSliceTypeFromNALU), C16AuxModel.v (partial-operation "
         "wrappers of the C17 SEI decoders, ExtractSEIData with the ReadBytes loop, ADTS scan with counters), C16SeiNaluModel.v "
-        "(avc/hevc ParseSEINalu), C16ConfRecModel.v (AVC/HEVC/AV1 configuration records), models of C14 (Annex B) and C18 (ADTS/ASC) "
+        "(avc/hevc ParseSEINalu), C16ConfRecModel.v (AVC/HEVC/AV1 configuration records), C16HevcParseModel.v + C16HevcPipeModel.v (HEVC SPS/PPS/slice header "
+        "over coq/c15/C15HevcModel.v, pipelines), models of C14 (Annex B) and C18 (ADTS/ASC) "
         "imported read-only",
         "outcome classification by the harness parent: ok|err from the call, panic by recover, hang by wall clock "
         "(2 s, confirmed with 6 s), overalloc by allocation counter > 512*len+1MiB or runtime out-of-memory abort",
@@ -99,7 +108,7 @@ def run(ctx):
     ctx.notes["correspondence"] = {
         "cases": len(lines), "mismatches": len(mism), "distinct_cases": distinct, "classes": classes,
         "outside_model": outside,  # HEVC cases whose PPS selects the multilayer / 3D extension (not modelled): not compared
-        "distribution": "stage 2/3 (avc SPS/PPS/slice/GetSliceType/ParsePSAndSlice pipeline, avc+hevc ParseSEINalu, ExtractSEIData, 8 SEI decoders, "
+        "distribution": "stage 2/3 (hevc SPS/PPS/slice + hevc pipelines SPS->PPS->slice, SPS->SEI, confrec->PS->slice; avc SPS/PPS/slice/GetSliceType/ParsePSAndSlice pipeline, avc+hevc ParseSEINalu, ExtractSEIData, 8 SEI decoders, "
                         "ADTS, ASC, 7 Annex B helpers): the search generators (captured seeds, every prefix of a seed, mutants, field soups with "
                         "hostile ue(v), structured pipelines, raw short inputs), n/20 per target; reference parameter sets sent in CTX lines and "
                         "parsed by the model itself; sei.DecodePicTimingHevcSEI on fixed + random/field-soup payloads x random external flags and widths; 15 walkers on: fixed witnesses; every string over {00,01,04,fc,ff} up to length 3 (5 thorough); "
@@ -145,7 +154,7 @@ def run(ctx):
     for p in prs:
         ctx.proof_violation_if_broken(p, "c16 search: %d evaluations, no failing input" % ctx.notes.get("search_evaluations", 0))
     ctx.cov["rule"] = ("corr: outcome class (ok|err|panic|hang|overalloc) and value of the 15 modelled walkers and class + projected "
-                       "values of 35 more modelled entry points on every generated sample; distinct = distinct (function,input,arg,class,value) lines; search: every target must end in ok|err "
+                       "values of 45 more modelled entry points on every generated sample; distinct = distinct (function,input,arg,class,value) lines; search: every target must end in ok|err "
                        "with allocation <= 512*len+1MiB inside the wall-clock budget, each call in a worker subprocess")
 
 
